@@ -145,16 +145,35 @@ pub fn weights_of(v: &Value) -> (HashMap<String, f64>, Vec<Value>) {
     (m, ord)
 }
 
+/// an amount placed relative to the broker's current cash balance (boundary probing: the driver cannot know the
+/// balance in advance); falls back to the literal "x"
+fn amount_of(op: &Value, cash: f64) -> f64 {
+    match op.get("rel").and_then(|r| r.as_str()) {
+        None => bf(&op["x"]),
+        Some("eq") => cash,
+        Some("ulp_up") => f64::from_bits(if cash > 0.0 { cash.to_bits() + 1 } else { cash.to_bits().wrapping_sub(1) }),
+        Some("ulp_down") => f64::from_bits(if cash > 0.0 { cash.to_bits() - 1 } else { cash.to_bits() + 1 }),
+        Some("ulps_up_8") => f64::from_bits(if cash > 0.0 { cash.to_bits() + 8 } else { cash.to_bits().wrapping_sub(8) }),
+        Some("plus_1e-9") => cash + 1e-9,
+        Some("plus_1e-7") => cash + 1e-7,
+        Some("plus_1e-3") => cash + 1e-3,
+        Some("times_1p1e-12") => cash * (1.0 + 1e-12),
+        Some("half") => cash / 2.0,
+        Some(other) => panic!("bad rel {}", other),
+    }
+}
+
 pub fn run(sc: &Value) -> Value {
     let (rig, mut b) = make_rig(sc);
     let mut snaps = vec![json!({"broker": broker_snap(&b, &rig.syms), "server": exch_snap_of(&rig.state, rig.id)})];
     let mut results = Vec::new();
     for op in arr(&sc["ops"]) {
         rig.log.borrow_mut().clear();
+        let x_used = if op.get("x").is_some() || op.get("rel").is_some() { amount_of(op, b.get_cash_balance()) } else { 0.0 };
         let r = catch(|| match s(&op["op"]).as_str() {
-            "deposit" => cash_event_json(&b.deposit_cash(&bf(&op["x"]))),
-            "withdraw" => cash_event_json(&b.withdraw_cash(&bf(&op["x"]))),
-            "liq" => cash_event_json(&b.withdraw_cash_with_liquidation(&bf(&op["x"]))),
+            "deposit" => cash_event_json(&b.deposit_cash(&x_used)),
+            "withdraw" => cash_event_json(&b.withdraw_cash(&x_used)),
+            "liq" => cash_event_json(&b.withdraw_cash_with_liquidation(&x_used)),
             "send" => order_event_json(&b.send_order(uist_order_of(&op["order"]))),
             "check" => {
                 block_on(b.check());
@@ -174,11 +193,11 @@ pub fn run(sc: &Value) -> Value {
         });
         match r {
             Ok(v) => {
-                results.push(json!({"res": v, "calls": rig.log.borrow().clone()}));
+                results.push(json!({"res": v, "calls": rig.log.borrow().clone(), "x_used": fb(x_used)}));
                 snaps.push(json!({"broker": broker_snap(&b, &rig.syms), "server": exch_snap_of(&rig.state, rig.id)}));
             }
             Err(m) => {
-                results.push(json!({"panic": m, "calls": rig.log.borrow().clone()}));
+                results.push(json!({"panic": m, "calls": rig.log.borrow().clone(), "x_used": fb(x_used)}));
                 break;
             }
         }
